@@ -180,6 +180,7 @@ def typesig(model, ns_name, d):
             o['catch_all_field'] = None
         o['fields'] = fields
         o['all_fields'] = [t[0] for t in union_all_tags(model, ns_name, d)]
+    o['examples'] = expected_examples(model, ns_name, d)
     return o
 
 
@@ -233,6 +234,14 @@ def attr_vsig(model, f, v):
     return vsig(model, 'stone_cfg', f.type, v)
 
 
+def alias_sig(model, ns_name, a):
+    d = {'name': a.name, 'type': tsig(model, ns_name, a.type), 'raw_doc': a.doc, 'doc': doc_unwrap(a.doc)}
+    anns = annotations_of(model, ns_name, a.anns)
+    red = [(n, x) for n, x in anns if x.kind in ('RedactedBlot', 'RedactedHash')]
+    d['redactor'] = _ann_sig(model, red[0][0], red[0][1]) if red else None
+    return d
+
+
 def referenced_namespaces(model, ns_name):
     """(all, data_type_only): namespaces this namespace refers to through `ns.Name` type references."""
     allr, dtr = set(), set()
@@ -271,7 +280,7 @@ def referenced_namespaces(model, ns_name):
 
 
 def uses_annotations(model):
-    return any(isinstance(d, (Annotation, AnnType)) for _, _, _, d in mm.all_defs(model))
+    return any(isinstance(d, AnnType) or (isinstance(d, Annotation) and d.kind_ns) for _, _, _, d in mm.all_defs(model))
 
 
 def expected_signature(model, with_examples=None):
@@ -293,8 +302,7 @@ def expected_signature(model, with_examples=None):
              'annotations': sorted(d.name for d in defs if isinstance(d, Annotation)),
              'annotation_types_set': sorted(d.name for d in defs if isinstance(d, AnnType)),
              'types': {d.name: typesig(model, name, d) for d in types},
-             'alias': {a.name: {'name': a.name, 'type': tsig(model, name, a.type), 'raw_doc': a.doc, 'doc': doc_unwrap(a.doc)}
-                       for a in aliases},
+             'alias': {a.name: alias_sig(model, name, a) for a in aliases},
              'route': {'%s:%d' % (r.name, r.version): routesig(model, name, r, schema) for r in routes},
              'by_name': {'data_type': sorted(d.name for d in types), 'alias': sorted(d.name for d in aliases),
                          'route': sorted(r.name for r in routes if r.version == 1),
@@ -367,3 +375,102 @@ def diff_identity(path):
         if x in ('ns', 'types', 'alias', 'route', 'attrs', 'examples', 'annotation', 'annotation_type'):
             skip_next = True
     return '.'.join(out)
+
+
+# ---------------------------------------------------------------------------
+# expected examples (lang_ref.rst "Examples", "union-examples"; backend_ref: get_examples())
+
+
+def _jsonable(v):
+    from .render import RawMap
+    if isinstance(v, RawMap):
+        return {k: _jsonable(x) for k, x in v.items}
+    if isinstance(v, (list, tuple)):
+        return [_jsonable(x) for x in v]
+    return v
+
+
+def _example_of(model, ns_name, d, label, depth=0):
+    """Expected JSON value of example `label` of struct/union d, or raises KeyError."""
+    if depth > 20:
+        raise KeyError('example reference cycle')
+    if isinstance(d, Struct):
+        ex = None
+        for e in d.examples:
+            if e.label == label:
+                ex = e
+        if ex is None:
+            raise KeyError(label)
+        given = dict(ex.fields)
+        for p_ in mm.patches_for(model, ns_name, d.name):
+            for pe in p_.examples:
+                if pe.label == label:
+                    given.update(dict(pe.fields))
+        if d.subtypes is not None:
+            (tag, ref), = given.items()
+            leaf_ref = dict(d.subtypes[1])[tag]
+            lns, leaf = mm.resolve(model, ns_name, leaf_ref)
+            out = {'.tag': tag}
+            out.update(_example_of(model, lns, leaf, ref.tag, depth + 1))
+            return out
+        out = {}
+        for cns, cs in reversed(mm.struct_chain(model, ns_name, d)):
+            for f in mm.own_members(model, cns, cs):
+                if f.name in given:
+                    if given[f.name] is None:
+                        continue
+                    out[f.name] = _example_json(model, cns, f.type, given[f.name], depth)
+                elif f.default != NODEF:
+                    if isinstance(f.default, TagLit):
+                        out[f.name] = {'.tag': f.default.tag}
+                    else:
+                        out[f.name] = vsig(model, cns, f.type, f.default)[1]
+        return out
+    # union
+    for e in d.examples:
+        if e.label == label:
+            (tag, val), = e.fields
+            ttype = None
+            tns = ns_name
+            for (n, t, ca, cns) in union_all_tags(model, ns_name, d):
+                if n == tag:
+                    ttype, tns = t, cns
+            out = {'.tag': tag}
+            if ttype is None or val is None:
+                return out
+            ns2, u, _, _ = mm.strip(model, tns, ttype)
+            inner = _example_json(model, tns, ttype, val, depth)
+            target = mm.resolve(model, ns2, u) if isinstance(u, R) else None
+            if target is not None and isinstance(target[1], Struct) and target[1].subtypes is None:
+                out.update(inner)
+            else:
+                out[tag] = inner
+            return out
+    for (n, t, ca, cns) in union_all_tags(model, ns_name, d):
+        if n == label and t is None:
+            return {'.tag': n}
+    raise KeyError(label)
+
+
+def _example_json(model, ns_name, t, val, depth):
+    from .render import RawMap
+    ns2, u, _, _ = mm.strip(model, ns_name, t)
+    if isinstance(val, TagLit):
+        tns, td = mm.resolve(model, ns2, u)
+        return _example_of(model, tns, td, val.tag, depth + 1)
+    if isinstance(val, RawMap):
+        return {k: _example_json(model, ns2, u.value, x, depth) for k, x in val.items}
+    if isinstance(val, (list, tuple)):
+        return [_example_json(model, ns2, u.item, x, depth) for x in val]
+    return val
+
+
+def expected_examples(model, ns_name, d):
+    out = {}
+    for e in d.examples:
+        out[e.label] = {'text': doc_unwrap(e.text) if e.text else e.text, 'value': _example_of(model, ns_name, d, e.label)}
+    if isinstance(d, Union):
+        for (n, t, ca, cns) in union_all_tags(model, ns_name, d):
+            if t is None:
+                out[n] = {'text': None, 'value': {'.tag': n}}
+    return out
